@@ -189,12 +189,17 @@ func vRunLookup(t *testing.T, c *vh.Case, sc vLkScenario) *vLkResult {
 		}
 		lk, kk, sid := liar, kind, strangers
 		strangers += 3
+		// successful dials take time too for half of the peers: a lookup can then terminate while a dial is pending
+		var dialLat time.Duration
+		if r.Intn(2) == 0 {
+			dialLat = time.Duration(1+r.Intn(sc.MaxDelay)) * time.Millisecond
+		}
 		sp.Script = func(cnt int, req *pb.Message) vsim.Reply {
 			if req == nil { // dial
 				if kk == "dialslow" {
 					return vsim.Reply{DialFail: true, Delay: base}
 				}
-				return vsim.Reply{}
+				return vsim.Reply{Delay: dialLat}
 			}
 			rep := vsim.Reply{Delay: base + time.Duration((cnt*37+idx)%7)*time.Millisecond}
 			switch kk {
